@@ -41,21 +41,22 @@ theorem shebang_ok {E : Env} {st : St} (hb : st.base ≤ E.text.length) :
         exact ⟨st1, h1, (hs.ext hb).trans e1, by rw [t1]; rfl, by rw [c1]; rfl⟩
   · exact ⟨st, rfl, Ext.refl hb, rfl, rfl⟩
 
-theorem scanTemplateBody_ok {E : Env} (hC : CodeSpec E) {st : St} (hb : st.base ≤ E.text.length)
-    (hti : st.tagIndex ≤ st.base) :
-    ∃ st' e, scanTemplateBody E st = .ok (st', e) ∧ Ext E st st' := by
-  unfold scanTemplateBody
+theorem scanTemplateFrom_ok {E : Env} (hC : CodeSpec E) {st : St} (hb : st.base ≤ E.text.length)
+    (hB : Bal st) (hti : st.tagIndex ≤ st.base) :
+    ∃ st' e, scanTemplateFrom E st = .ok (st', e) ∧ Ext E st st' := by
+  unfold scanTemplateFrom
   simp only []
   -- the state and position after the optional code block indentation
   have hinit : ∃ p0 st0, (if st.ctx = ContextMarkdown then
         ((scanCodeBlock E st 0).1, { (scanCodeBlock E st 0).2.2 with ctx := (scanCodeBlock E st 0).2.1 })
       else (0, st)) = (p0, st0) ∧ st0.base = st.base ∧ st0.toks = st.toks ∧ st0.tagIndex = st.tagIndex ∧
-      p0 ≤ srcLen E st := by
+      p0 ≤ srcLen E st ∧ st0.contexts = st.contexts ∧ st0.bases = st.bases := by
     split
     · obtain ⟨hs, _, h2⟩ := scanCodeBlock_ok (E := E) st 0 (Nat.zero_le _)
-      exact ⟨_, _, rfl, hs.base, hs.toks, by show (scanCodeBlock E st 0).2.2.tagIndex = _; rw [hs], h2⟩
-    · exact ⟨0, st, rfl, rfl, rfl, rfl, Nat.zero_le _⟩
-  obtain ⟨p0, st0, hi, hb0, ht0, hti0, hp0⟩ := hinit
+      exact ⟨_, _, rfl, hs.base, hs.toks, by show (scanCodeBlock E st 0).2.2.tagIndex = _; rw [hs], h2,
+        hs.contexts, hs.bases⟩
+    · exact ⟨0, st, rfl, rfl, rfl, rfl, Nat.zero_le _, rfl, rfl⟩
+  obtain ⟨p0, st0, hi, hb0, ht0, hti0, hp0, hcx0, hbs0⟩ := hinit
   have hi' : (if st.ctx = ContextMarkdown then
       match scanCodeBlock E st 0 with
       | (p, ctx, st) => (p, { st with ctx := ctx })
@@ -66,13 +67,13 @@ theorem scanTemplateBody_ok {E : Env} (hC : CodeSpec E) {st : St} (hb : st.base 
   generalize hlp : ({ p := p0, lin := st.line, tcol := st.col, quote := 0, emittedURL := false, jsComment := 0, spacesOnly := true } : Loop) = lp0
   have hlp0 : lp0.p = p0 := by rw [← hlp]
   have hI : LoopInv E st0 lp0 := ⟨hb0 ▸ hb, by rw [hs0, hlp0]; exact hp0, by rw [hti0, hb0, hlp0]; omega⟩
-  obtain ⟨st1, lp1, e, hml, e1, hend⟩ := mainLoop_ok hC (F := { fileCtx := st.ctx, isHTML := decide (st.ctx = ContextHTML ∨ st.ctx = ContextMarkdown) })
-    (mainFuel E) st0 lp0 hI (by
+  obtain ⟨st1, lp1, e, hml, e1, hend⟩ := mainLoop_ok hC
+    (mainFuel E) st0 lp0 hI (by unfold Bal at *; rw [hcx0, hbs0]; exact hB) (by
       unfold mu mainFuel
       have := attrCtx_le st0.ctx
       omega)
   simp only [hml, bind_ok]
-  have e01 : Ext E st st1 := ((Ext.refl hb).of_eq hb0 ht0).trans e1
+  have e01 : Ext E st st1 := ((Ext.refl hb).of_eq hb0 ht0 hcx0 hbs0).trans e1
   cases e with
   | some err => exact ⟨_, _, rfl, e01⟩
   | none =>
@@ -99,6 +100,13 @@ theorem scanTemplateBody_ok {E : Env} (hC : CodeSpec E) {st : St} (hb : st.base 
     simp only [h3, bind_ok]
     exact ⟨_, _, rfl, (e01.trans e2).trans e3⟩
 
+theorem scanTemplateBody_ok {E : Env} (hC : CodeSpec E) {st : St} (hb : st.base ≤ E.text.length)
+    (hB : Bal st) (hti : st.tagIndex ≤ st.base) :
+    ∃ st' e, scanTemplateBody E st = .ok (st', e) ∧ Ext E st st' := by
+  unfold scanTemplateBody
+  obtain ⟨st', e, h, ex⟩ := scanTemplateFrom_ok hC (st := { st with lbase := st.ctx }) hb hB hti
+  exact ⟨st', e, h, (Ext.refl hb).trans (ex : Ext E { st with lbase := st.ctx } st') |>.of_eq rfl rfl⟩
+
 theorem initSt_ext (E : Env) (ctx tagCtx : Nat) : (initSt ctx tagCtx).base ≤ E.text.length := Nat.zero_le _
 
 /-- `scan` never faults and its tokens lie one after the other inside the text -/
@@ -110,18 +118,19 @@ theorem scanWith_ok {E : Env} (hC : CodeSpec E) (ctx : Nat) :
   have hb0 : st0.base = 0 := by rw [← hinit]; rfl
   have ht0 : st0.toks = [] := by rw [← hinit]; rfl
   have hti0 : st0.tagIndex = 0 := by rw [← hinit]; rfl
+  have hB0 : Bal st0 := by rw [← hinit]; rfl
   obtain ⟨st1, h1, e1, t1, _⟩ := shebang_ok (E := E) (st := st0) (by rw [hb0]; exact Nat.zero_le _)
   simp only [h1, bind_ok]
   have hbody : ∃ st2 err, (if E.tmpl = true then scanTemplateBody E st1 else lexCode E tokenEOF st1) = .ok (st2, err) ∧ Ext E st1 st2 := by
     split
-    · exact scanTemplateBody_ok hC e1.le_len (by rw [t1, hti0]; exact Nat.zero_le _)
-    · obtain ⟨st2, err, h, ex, _⟩ := hC.lexCode_ok tokenEOF st1 e1.le_len
+    · exact scanTemplateBody_ok hC e1.le_len (e1.bal hB0) (by rw [t1, hti0]; exact Nat.zero_le _)
+    · obtain ⟨st2, err, h, ex, _⟩ := hC.lexCode_ok tokenEOF st1 e1.le_len (e1.bal hB0)
       exact ⟨st2, err, h, ex⟩
   obtain ⟨st2, err, h2, e2⟩ := hbody
   simp only [h2, bind_ok]
   have fin : ∀ s : St, Ext E st0 s → TokensIn s.toks.reverse.reverse 0 E.text.length := by
     intro s hs
-    obtain ⟨hl, new, hnew, hin⟩ := hs
+    obtain ⟨hl, ⟨new, hnew, hin⟩, _⟩ := hs
     rw [List.reverse_reverse, hnew, ht0, List.append_nil]
     rw [hb0] at hin
     exact hin.mono hl
